@@ -225,30 +225,19 @@ macro_rules! purge_method_for_document_type {
       K: JwkStorage,
       I: KeyIdStorage,
     {
-      let (method, scope) = document.remove_method_and_scope(id).ok_or(Error::MethodNotFound)?;
-
-      // Obtain method digest and handle error if this operation fails.
-      let method_digest: MethodDigest = match MethodDigest::new(&method).map_err(Error::MethodDigestConstructionError) {
-        Ok(digest) => digest,
-        Err(error) => {
-          // Revert state by reinserting the method before returning the error.
-          let _ = document.insert_method(method, scope);
-          return Err(error);
-        }
+      // Look everything up *before* touching the document: a failure up to here leaves nothing to undo.
+      let method_digest: MethodDigest = {
+        // Exact id comparison, like the removal below (a query would also match by fragment alone).
+        let method: &VerificationMethod = document
+          .methods(None)
+          .into_iter()
+          .find(|method| method.id() == id)
+          .ok_or(Error::MethodNotFound)?;
+        MethodDigest::new(method).map_err(Error::MethodDigestConstructionError)?
       };
-
-      // Obtain key id and handle error upon failure.
-      let key_id: KeyId = match <I as KeyIdStorage>::get_key_id(&storage.key_id_storage(), &method_digest)
+      let key_id: KeyId = <I as KeyIdStorage>::get_key_id(&storage.key_id_storage(), &method_digest)
         .await
-        .map_err(Error::KeyIdStorageError)
-      {
-        Ok(key_id) => key_id,
-        Err(error) => {
-          // Reinsert method before returning.
-          let _ = document.insert_method(method, scope);
-          return Err(error);
-        }
-      };
+        .map_err(Error::KeyIdStorageError)?;
 
       // Delete key and key id concurrently.
       let key_deletion_fut = <K as JwkStorage>::delete(&storage.key_storage(), &key_id);
@@ -258,8 +247,13 @@ macro_rules! purge_method_for_document_type {
 
       // Check for any errors that may have occurred. Unfortunately this is somewhat involved.
       match (key_deletion_result, key_id_deletion_result) {
-        (Ok(_), Ok(_)) => Ok(()),
+        (Ok(_), Ok(_)) => {
+          let _ = document.remove_method(id);
+          Ok(())
+        }
         (Ok(_), Err(key_id_deletion_error)) => {
+          // The key is gone, so the method can no longer be used: remove it as before.
+          let _ = document.remove_method(id);
           // Cannot attempt to revert this operation as the JwkStorage may not return the same KeyId when
           // JwkStorage::insert is called.
           Err(Error::UndoOperationFailed {
@@ -278,21 +272,20 @@ macro_rules! purge_method_for_document_type {
               .await
               .map_err(Error::KeyIdStorageError)
           {
+            let _ = document.remove_method(id);
             Err(Error::UndoOperationFailed {
               message: format!("cannot revert key id deletion: this results in stray key with key id: {key_id}"),
               source: Box::new(Error::KeyStorageError(key_deletion_error)),
               undo_error: Some(Box::new(key_id_insertion_error)),
             })
           } else {
-            // KeyId reinsertion succeeded. Now reinsert method.
-            let _ = document.insert_method(method, scope);
+            // KeyId reinsertion succeeded; the document was never changed.
             Err(Error::KeyStorageError(key_deletion_error))
           }
         }
         (Err(_key_deletion_error), Err(key_id_deletion_error)) => {
-          // We assume this means nothing got deleted. Reinsert the method and return one of the errors (perhaps
-          // key_id_deletion_error as we really expect the key id storage to work as expected at this point).
-          let _ = document.insert_method(method, scope);
+          // We assume this means nothing got deleted. The document was never changed; return one of the errors
+          // (perhaps key_id_deletion_error as we really expect the key id storage to work as expected at this point).
           Err(Error::KeyIdStorageError(key_id_deletion_error))
         }
       }
